@@ -2268,6 +2268,12 @@ func (ctx Ctx) callExprInterface(cvs []coq.Decl, r *ast.CallExpr) []coq.Decl {
 			if _, ok := ctx.typeOf(arg).Underlying().(*types.Struct); ok {
 				cv := coq.StructToInterface{Struct: structName, Interface: interfaceName, Methods: methods}
 				if len(cv.Coq(true)) > 1 && len(cv.MethodList()) > 0 {
+					// the conversion is emitted with this declaration and
+					// mentions every method it packs
+					ctx.dep.addDep(interfaceName)
+					for _, m := range cv.MethodList() {
+						ctx.dep.addDep(coq.MethodName(structName, m))
+					}
 					cvs = append(cvs, cv)
 				}
 			}
